@@ -108,6 +108,38 @@ func runC12(c *Ctx, n, t int, tag string, plan c12Plan, fail func(kind, what str
 	cl.Propose(0)
 	var script, obs []string
 	answered := 0
+	// what the victim's result files said when the operations were first answered
+	origEvent := map[string]string{}
+	origData := map[string]string{}
+	readResult := func(path string) (string, string) {
+		bz, err := os.ReadFile(path)
+		if err != nil {
+			return "unreadable", ""
+		}
+		var res ctypes.Operation
+		if json.Unmarshal(bz, &res) != nil {
+			return "undecodable", ""
+		}
+		data := ""
+		if string(res.Event) == "event_dkg_commit_confirm_received" && len(res.ResultMsgs) > 0 {
+			data = string(res.ResultMsgs[0].Data) // commitments are deterministic; deals are re-encrypted
+		}
+		return string(res.Event), data
+	}
+	resultsDir := filepath.Join(cl.MDirs[plan.victim], "results")
+	checkReplayed := func() {
+		for path, ev := range origEvent {
+			e2, d2 := readResult(path)
+			if e2 != ev || d2 != origData[path] {
+				fail("replay-republishes-differently", fmt.Sprintf("after stop, reopen and replay the result file of an already answered operation changed (event %s -> %s)", ev, e2),
+					map[string]interface{}{"participant": plan.victim, "file": filepath.Base(path), "restarts_after_operation": fmt.Sprint(plan.restarts)})
+			}
+		}
+	}
+	remember := func(o *ctypes.Operation) {
+		path := filepath.Join(resultsDir, o.Filename()+"_result.json")
+		origEvent[path], origData[path] = readResult(path)
+	}
 	firstCommit := make([]string, n)
 	stopReplay := func(times int) {
 		for r := 0; r < times; r++ {
@@ -123,6 +155,7 @@ func runC12(c *Ctx, n, t int, tag string, plan c12Plan, fail func(kind, what str
 					fail("replay-failed", "replaying the operation log failed: "+err.Error(), map[string]interface{}{"participant": plan.victim})
 				}
 			}
+			checkReplayed()
 			// the log must not change by being replayed (observable at the next stop; checked at the end too)
 			script = append(script, "R")
 			obs = append(obs, fmt.Sprintf("%d/%d", before, before))
@@ -162,6 +195,7 @@ func runC12(c *Ctx, n, t int, tag string, plan c12Plan, fail func(kind, what str
 		default:
 			_, err = answerViaFile(cl, i, o)
 		}
+		remember(o)
 		script = append(script, opKind(string(o.Type)))
 		obs = append(obs, "-")
 		answered++
@@ -205,6 +239,10 @@ func runC12(c *Ctx, n, t int, tag string, plan c12Plan, fail func(kind, what str
 	cl.Machines[plan.victim] = reopen(cl, plan.victim)
 	script = append(script, "R")
 	obs = append(obs, fmt.Sprintf("%d/%d", final, final))
+	if final != answered {
+		fail("log-length", fmt.Sprintf("the victim answered %d key-generation operations but its operation log holds %d entries", answered, final),
+			map[string]interface{}{"participant": plan.victim, "restarts_after_operation": fmt.Sprint(plan.restarts), "in_step": fmt.Sprint(plan.inStep)})
+	}
 	return out, script, obs
 }
 
